@@ -44,8 +44,10 @@ func (c *fnCtx) pkgOf(f *ssa.Function) *types.Package {
 func (c *fnCtx) contractEnv(f *ssa.Function, args []*Val, results []*Val, st, old *State) *evalEnv {
 	rn := resultNames(f.Signature)
 	var extNames []string
+	extRecv := false
 	if ct := c.eng.externCts[f.String()]; ct != nil {
 		extNames = ct.ParamNames
+		extRecv = ct.HasRecv && f.Signature.Recv() != nil
 	}
 	lk := func(name string) (tv, bool) {
 		for i, p := range f.Params {
@@ -54,13 +56,32 @@ func (c *fnCtx) contractEnv(f *ssa.Function, args []*Val, results []*Val, st, ol
 			}
 		}
 		for i, n := range extNames {
-			if n == name && i < len(args) && i < f.Signature.Params().Len() {
+			if n != name || i >= len(args) {
+				continue
+			}
+			if extRecv {
+				if i == 0 {
+					return tv{v: args[0], t: f.Signature.Recv().Type()}, true
+				}
+				if i-1 < f.Signature.Params().Len() {
+					return tv{v: args[i], t: f.Signature.Params().At(i - 1).Type()}, true
+				}
+				continue
+			}
+			if i < f.Signature.Params().Len() {
 				return tv{v: args[i], t: f.Signature.Params().At(i).Type()}, true
 			}
 		}
 		for i, n := range rn {
 			if n == name && i < len(results) && results[i] != nil {
 				return tv{v: results[i], t: f.Signature.Results().At(i).Type()}, true
+			}
+		}
+		if strings.HasPrefix(name, "result") && len(name) > 6 {
+			// positional alias resultK, also for named results
+			var k int
+			if _, err := fmt.Sscanf(name[6:], "%d", &k); err == nil && k < len(results) && results[k] != nil && k < f.Signature.Results().Len() {
+				return tv{v: results[k], t: f.Signature.Results().At(k).Type()}, true
 			}
 		}
 		if name == "result" && len(results) >= 1 && results[0] != nil && len(rn) >= 1 {
@@ -122,11 +143,29 @@ func (c *fnCtx) applyContract(in ssa.Instruction, callee *ssa.Function, ct *Cont
 	}
 	c.passedPtrEffects(cc, args)
 	if ct.Modifies != nil {
+		// contents(p): only the window of the slice argument p is overwritten (with arbitrary bytes)
+		for _, pat := range ct.Modifies {
+			if strings.HasPrefix(pat, "contents(") && strings.HasSuffix(pat, ")") {
+				pn := pat[len("contents(") : len(pat)-1]
+				if tvv, ok := env.lookup(pn); ok && tvv.v != nil && tvv.v.K == KSlice {
+					c.readInto(in, tvv.v)
+				} else {
+					c.eng.engineError(fmt.Errorf("%s: modifies %s: no such slice parameter", ct.Key, pat))
+				}
+			}
+		}
 		c.havocSet(c.eng.contractMods(callee, ct))
 	} else if callee.Blocks == nil {
 		c.havocSet(c.eng.externalMods(callee, cc))
 	} else {
 		c.havocSet(c.eng.fnMods(callee))
+	}
+	if gk := ct.ghostKeys(); len(gk) > 0 {
+		gm := newModSet()
+		for _, g := range gk {
+			gm.Keys[g] = true
+		}
+		c.havocSet(gm)
 	}
 	r := c.result(rt, "cr")
 	results := unpackResults(r, rt)
